@@ -360,20 +360,55 @@ class Body:
                 d[i].append(("arg", i))
             refs = {}  # temp local -> (base local, is_mut) when temp = &[mut] place(base)
             deref_stores = []
+            # reference-typed temporaries that are plain copies / reborrows of another reference: mutation *through*
+            # them changes the ultimate referent, not the temporary (an inlined helper's `self` is such a copy)
+            nassign = {}
+            link = {}
+            for blk in self.blocks:
+                if blk["cleanup"]:
+                    continue
+                for st in blk["stmts"]:
+                    if st["k"] == "assign" and not st["lhs"]["p"]:
+                        l0 = st["lhs"]["l"]
+                        nassign[l0] = nassign.get(l0, 0) + 1
+                        rv = st.get("rv") or {}
+                        src = None
+                        if "use" in rv and op_place(rv["use"]) is not None and not op_place(rv["use"])["p"]:
+                            src = op_place(rv["use"])["l"]
+                        elif "ref" in rv and rv["ref"]["p"] == ["*"]:
+                            src = rv["ref"]["l"]
+                        if src is not None and str(self.locals[l0].get("ty", "")).startswith("&"):
+                            link[l0] = src
+                if blk["term"]["k"] == "call":
+                    l0 = blk["term"]["dest"]["l"]
+                    nassign[l0] = nassign.get(l0, 0) + 2
+
+            def ultimate(l0):
+                for _hop in range(8):
+                    if l0 > self.arg_count and nassign.get(l0) == 1 and l0 in link:
+                        l0 = link[l0]
+                    else:
+                        break
+                return l0
             for bb, blk in enumerate(self.blocks):
                 if blk["cleanup"]:
                     continue
                 for i, st in enumerate(blk["stmts"]):
                     if st["k"] in ("assign", "setdiscr"):
                         lhs = st["lhs"]
-                        if lhs["p"] and lhs["p"][0] == "*" and lhs["l"] > self.arg_count:
+                        if lhs["p"] and lhs["p"][0] == "*" and lhs["l"] > self.arg_count and ultimate(lhs["l"]) != lhs["l"]:
+                            d[ultimate(lhs["l"])].append(("stmt", bb, i, st))
+                        elif lhs["p"] and lhs["p"][0] == "*" and lhs["l"] > self.arg_count:
                             # a store through a temporary reference writes the referent, not the reference
                             deref_stores.append((bb, i, st))
                         else:
                             d[lhs["l"]].append(("stmt", bb, i, st))
                         rv = st.get("rv") or {}
                         if "ref" in rv and rv.get("mut") and is_bare(st["lhs"]):
-                            refs[st["lhs"]["l"]] = rv["ref"]["l"]
+                            base = rv["ref"]["l"]
+                            if rv["ref"]["p"] and rv["ref"]["p"][0] == "*":
+                                base = ultimate(base)
+                            refs[st["lhs"]["l"]] = base
                 t = blk["term"]
                 if t["k"] == "call":
                     d[t["dest"]["l"]].append(("call", bb, t))
@@ -393,7 +428,24 @@ class Body:
                             rv = rec[3].get("rv") or {}
                             src = rv.get("ref") or op_place(rv.get("use")) if ("ref" in rv or "use" in rv) else None
                             if src is not None:
-                                bases.add(src["l"])
+                                # follow copies of the reference back to the place it borrows (an inlined helper's
+                                # `self` is a copy of a reborrow of the caller's `self`)
+                                sl = src["l"]
+                                for _hop in range(6):
+                                    if sl in refs:
+                                        sl = refs[sl]
+                                        break
+                                    if sl <= self.arg_count:
+                                        break
+                                    rs = [r2 for r2 in d.get(sl, ()) if r2[0] == "stmt"]
+                                    if len(rs) != 1 or d.get(sl) != rs:
+                                        break
+                                    rv2 = rs[0][3].get("rv") or {}
+                                    nxt = rv2.get("ref") or (op_place(rv2.get("use")) if "use" in rv2 else None)
+                                    if nxt is None:
+                                        break
+                                    sl = nxt["l"]
+                                bases.add(sl)
                 if not bases:
                     bases.add(l)
                 for bl in bases:
@@ -717,7 +769,10 @@ class Body:
             if sd[0] == "stmt":
                 st = sd[3]
                 if st["k"] == "assign" and not st["lhs"]["p"]:
-                    return self._canon_rv(st["rv"], depth - 1, env)
+                    rv = st["rv"]
+                    # plain copies and reborrows do not use up the expansion budget
+                    cheap = ("use" in rv and op_place(rv["use"]) is not None) or ("ref" in rv and rv["ref"]["p"] == ["*"])
+                    return self._canon_rv(rv, depth - (0.125 if cheap else 1), env)
             elif sd[0] == "call":
                 t = sd[2]
                 if not t["dest"]["p"]:
@@ -760,7 +815,7 @@ class Body:
                 for (_bb, _i, cdef, ops, _fields) in pb.closures_created():
                     if cdef == self.id:
                         for i, o in enumerate(ops):
-                            self._capt[i] = pb.canon(o, depth=4, env={}).replace("$", "^")
+                            self._capt[i] = pb.canon(o, depth=2, env={}).replace("$", "^")
         ty = e["ty"].split("::")[-1][:40]
         if e["f"] in self._capt:
             return "up{%s}" % self._capt[e["f"]]
